@@ -675,6 +675,45 @@ func vmOutErrorFacts(repo string, fset *token.FileSet) (map[string]string, error
 		})
 	}
 	facts["nextCallCallsNative"] = fmt.Sprintf("Bool := %v", nativeFromNextCall)
+
+	// 5. run.go OpRecover: what the interpreted code receives from recover(). A deferred function
+	//    that recovers and panics again with the recovered value (`if e := recover(); e != nil {
+	//    cleanup; panic(e) }`) must hand back the very value that was raised — for a failed write
+	//    the outError that convertPanic and VM.Run recognise — otherwise Run returns a PanicError
+	//    about E instead of E.
+	var recAssigns []string
+	ast.Inspect(run, func(n ast.Node) bool {
+		cc, ok := n.(*ast.CaseClause)
+		if !ok || len(cc.List) != 1 || exprString(fset, cc.List[0]) != "OpRecover" {
+			return true
+		}
+		for _, st := range cc.Body {
+			ast.Inspect(st, func(m ast.Node) bool {
+				as, ok := m.(*ast.AssignStmt)
+				if !ok || len(as.Lhs) != 1 || exprString(fset, as.Lhs[0]) != "msg" {
+					return true
+				}
+				recAssigns = append(recAssigns, strings.Join(strings.Fields(exprString(fset, as.Rhs[0])), " "))
+				return true
+			})
+			// any other use of vm.panic.message in the clause is part of the shape
+			ast.Inspect(st, func(m ast.Node) bool {
+				if ce, ok := m.(*ast.CallExpr); ok && exprString(fset, ce.Fun) == "vm.setGeneral" && len(ce.Args) == 2 {
+					recAssigns = append(recAssigns, "setGeneral:"+exprString(fset, ce.Args[1]))
+				}
+				return true
+			})
+		}
+		return false
+	})
+	if len(recAssigns) == 0 {
+		return nil, fmt.Errorf("shape not recognised: run.go has no `case OpRecover:` clause assigning msg")
+	}
+	var q []string
+	for _, r := range recAssigns {
+		q = append(q, leanStr(r))
+	}
+	facts["recoverValue"] = "List String := [" + strings.Join(q, ", ") + "]"
 	return facts, nil
 }
 
